@@ -15,7 +15,7 @@ import (
 	"verif/internal/core"
 )
 
-func init() { Registry["C02"] = checkC02 }
+func init() { Registry["C02"] = withErrRules(checkC02, "", "protocol/binary", "wire", "protocol") }
 
 // wireTypeCodes is the frozen Thrift binary-protocol type-code table.
 var wireTypeCodes = map[string]int64{
